@@ -63,11 +63,16 @@ def parseOp (line : String) : Option Op :=
   | ["sappend", a, w] => do some (.sappend (← n? a) w)
   | ["sjoin", a, b] => do some (.sjoin (← n? a) (← n? b))
   | ["sadd", a, b, w] => do some (.sadd (← n? a) (← n? b) w)
+  | ["saddl", a, b, w] => do some (.saddl (← n? a) (← n? b) w)
+  | ["sadd2", a, b, c] => do some (.sadd2 (← n? a) (← n? b) (← n? c))
   | ["schar", a, b, w] => do some (.schar (← n? a) (← n? b) w)
   | ["srange", a, b, c, w] => do some (.srange (← n? a) (← n? b) (← n? c) w)
   | ["inp", a, b, c] => do some (.inp (← n? a) (← n? b) (← n? c))
   | ["input"] => some .input
   | ["reclaim"] => some .reclaim
+  | ["arange", a, b, c, d, e, f] => do some (.arange (← n? a) (← n? b) (← n? c) (← n? d) (← n? e) (← n? f))
+  | ["arangev", a, b, c, d, e] => do some (.arangev (← n? a) (← n? b) (← n? c) (← n? d) (← n? e))
+  | ["brange", a, b, c, d] => do some (.brange (← n? a) (← n? b) (← n? c) (← n? d))
   | ["reclaimu"] => some .reclaimu
   | ["inpr", a, b, c] => do some (.inpr (← n? a) (← n? b) (← n? c))
   | ["rest", w] => some (.rest w)
@@ -122,6 +127,9 @@ def lpcOnly : Op → Bool
   | .fefun _ _ _ _ => true
   | .frest _ _ => true
   | .reclaim => true
+  | .arange _ _ _ _ _ _ => true
+  | .arangev _ _ _ _ _ => true
+  | .brange _ _ _ _ => true
   | _ => false
 
 def renderRefs (h : List Cell) : String :=
